@@ -83,7 +83,8 @@ let report kind case impl expected =
   incr mismatches;
   let c = (try Hashtbl.find kind_counts kind with Not_found -> 0) + 1 in
   Hashtbl.replace kind_counts kind c;
-  if c <= 40 then Printf.printf "MISMATCH\t%s\t%s\t%s\t%s\n" kind case impl expected
+  (* verdict differences are the starting points of the driver's escalated search: more of them are passed on *)
+  if c <= (if kind = "model" then 160 else 40) then Printf.printf "MISMATCH\t%s\t%s\t%s\t%s\n" kind case impl expected
 
 let spec_fuel = 1500
 let terminates (g : grammar) (extras : bool) (rule : string) (input : byte list) : bool =
